@@ -34,7 +34,7 @@ from vf.pysym.loader import SymWorld
 
 PROPERTY = "C07"
 
-POS = [10, 20, 30, 40, 50]
+POS = [10, 20, 30, 40, 50, 60]
 
 
 class _NoResult(Exception):
@@ -61,7 +61,7 @@ class _Impl:
 
         covmonitor.max_coverage_in_range = counted
 
-    def readselection(self, rs, k, preferred, bridging, limit=150):
+    def readselection(self, rs, k, preferred, bridging, limit=80):
         self.calls[0], self.calls[1] = 0, limit
         out = io.StringIO()
         with contextlib.redirect_stdout(out):
@@ -114,6 +114,7 @@ class Select(SubCheck):
 
     def run(self, shape, tier, seed):
         R = len(shape.get("reads", []))
+        self._nonterm = 0
         self.policies = ["revrot"] if R >= 4 else ["rev", "rot1"] if tier == "quick" else ["rev", "revrot", "rot1", "rot-1"]
         return SubCheck.run(self, shape, tier, seed)
 
@@ -141,16 +142,28 @@ class Select(SubCheck):
                     # source (possibly none); pref=0: preferred_source_ids=None
                     for pref in ((0, 1) if R <= 2 else (1,)):
                         out.append(dict(kind="sel", reads=[list(r) for r in reads], n=N, bridging=bridging, pref=pref))
+        # bridging families (beyond R/N of the general enumeration, because the bridging pass only decides anything once
+        # >= 2 blocks exist AND >= 2 undecided reads compete): two resp. three disjoint block reads plus two further reads
+        seen = set(tuple(map(tuple, s["reads"])) for s in out if s["kind"] == "sel" and s["bridging"])
+        for extra in itertools.product(_subsets(4), repeat=2):
+            reads = [[0, 1], [2, 3]] + [list(x) for x in extra]
+            if tuple(map(tuple, reads)) not in seen:
+                out.append(dict(kind="sel", reads=reads, n=4, bridging=1, pref=0, family="bridge4"))
+        cands = [[1, 2], [3, 4], [1, 4], [2, 5], [0, 3], [1, 2, 3, 4]]
+        for extra in itertools.product(cands, repeat=2):
+            out.append(dict(kind="sel", reads=[[0, 1], [2, 3], [4, 5]] + [list(x) for x in extra], n=6, bridging=1, pref=0, family="bridge6"))
         return out
 
     def bounds(self, tier):
-        sh = [s for s in self.shapes(tier) if s["kind"] == "sel"]
+        allsh = [s for s in self.shapes(tier) if s["kind"] == "sel"]
+        sh = [s for s in allsh if "family" not in s]
         return (
             "%d incidence shapes: R <= %d reads over N <= %d variant positions; every ordered assignment of a covered subset (>= 2 positions) to every read "
             "whose union is all N positions%s; bridging on/off; preferred_source_ids None (R <= 2) or a set; "
             "symbolic: cap k in [1,3], base quality of every entry in [0,3], which reads come from a preferred source; "
+            "plus the bridging families {[0,1],[2,3]} + any two reads over 4 positions and {[0,1],[2,3],[4,5]} + two reads out of 6 block-joining candidates over 6 positions (bridging on, no preferred sources); "
             "std::unordered_set traversal order: every permutation of every traversal for R <= 2 and N <= 3, otherwise one solver-chosen policy per run out of %s"
-            % (len(sh), max(len(s["reads"]) for s in sh), max(s["n"] for s in sh),
+            % (len(allsh), max(len(s["reads"]) for s in sh), max(s["n"] for s in sh),
                " (R=3, N=4: reads in non-decreasing order of their first variant)" if tier == "quick" else ", R=4: N=3 reads ordered by first variant, N=4 one representative per multiset of reads (lexicographic order)",
                "reverse/rotate" if tier == "quick" else "reverse/reverse+rotate/rotate left/rotate right (R <= 3), reverse+rotate (R=4)")
         )
@@ -226,6 +239,10 @@ class Select(SubCheck):
             return self._short(e, impl)
         reads, bridging, pref = shape["reads"], bool(shape["bridging"]), shape["pref"]
         R = len(reads)
+        if e.symbolic and getattr(self, "_nonterm", 0) >= 5:
+            # fail fast: this job has already produced five non-termination counter-examples (each costs the full step
+            # bound, symbolically and on replay); the remaining paths of the job are dropped, the job is red anyway
+            e.assume(False)
         k = e.int("k", 1, 3)
         rs = impl.ReadSet()
         prefbit = []
@@ -239,14 +256,17 @@ class Select(SubCheck):
             rs.add(r)
         preferred = {1} if pref else None
 
+        limit = 4 * R * R + 16
         ctx0 = lambda: dict(reads=reads, bridging=bridging, preferred=[i for i in range(R) if prefbit[i]], k=e.value(k))
         # run 1: containers iterated in insertion order
         impl.set_order(None)
         try:
-            sel0 = impl.readselection(rs, k, preferred, bridging)
+            sel0 = impl.readselection(rs, k, preferred, bridging, limit)
         except _NoResult:
             sel0 = None
-        e.check(sel0 is not None, "readselection does not terminate (coverage monitor consulted more than 150 times for <= 4 reads)", ctx0)
+            if e.symbolic:
+                self._nonterm = getattr(self, "_nonterm", 0) + 1
+        e.check(sel0 is not None, "readselection does not terminate (coverage monitor consulted more than 4*R*R+16 times; two passes of at most R rounds popping at most 2R reads each need 4*R*R)", ctx0)
         # run 2: every traversal of a std::unordered_set in an order chosen by the solver
         cnt = [0]
         policy = [None]
@@ -271,7 +291,7 @@ class Select(SubCheck):
 
         impl.set_order(hook)
         try:
-            sel1 = impl.readselection(rs, k, preferred, bridging)
+            sel1 = impl.readselection(rs, k, preferred, bridging, limit)
         except _NoResult:
             sel1 = None
         finally:
